@@ -10,7 +10,7 @@
         recording subscriber ([to_tunnel], in the vocabulary of Tunnel/Receiver.v);
     (iii) both ways under [Registry + CaptureLayer], the two storages being dumped through the public
         API and compared by the harness ([to_snap]). *)
-From TT Require Export Tunnel.Tunnel.
+From TT Require Export Base.Worst Tunnel.Tunnel.
 From TT Require Import Values.ValuesProofs Tunnel.TypesProofs Tunnel.TunnelProofs.
 From stdpp Require Import gmap.
 
